@@ -457,7 +457,7 @@ Proof. exact partition_fill_level0_linked. Qed.
 Print Assumptions C01_partition_fill_linked.
 
 From T4V Require C13.LinkC01Orig.
-From T4V Require Import C01.PrinterC C01.LinkFill2 C01.LinkNode C01.LinkC11C05.
+From T4V Require Import C01.PrinterC C01.LinkFill2 C01.LinkNode C01.LinkKey C01.LinkFillPoints C01.LinkC11C05.
 
 (* the FILL theorem SHARPENED (round 4), about the printed lines WITH their
    `// idorigin` comment read back (PrinterC.v):
@@ -512,7 +512,6 @@ Theorem C01_partition_fill_written_linked :
                        In k' ks')) ->
   (forall c cl, C05.Model.dget c (C05.Model.s_cells s0) = Some cl -> C05.Model.c_univ cl = 0 ->
      c <> key -> val c = false) ->
-  ~ In key todo ->
   exists k, In k ks /\
     C05.Spec.RepresentsW T surf P tr_empty inv sense s0 du s3 key k ch /\
     (In k todo <-> C05.Model.c_imp kcl <> 0) /\
@@ -521,8 +520,70 @@ Theorem C01_partition_fill_written_linked :
          (forall j, in_volume sigma Tb j <-> j = k) /\
          exists v, lookup k Tb = Some v /\ v_fict v = false /\ v_orig v = C05.Spec.prov ch) /\
       (C05.Model.c_imp kcl = 0 -> forall j, ~ in_volume sigma Tb j).
-Proof. exact partition_fill_written_linked2. Qed.
+Proof. exact partition_fill_written_linked3. Qed.
 Print Assumptions C01_partition_fill_written_linked.
+
+(* the same for POINTS of R^3 (round 5): C05's abstract point type is R^3, surfaces
+   are any real functions fval, the helper planes x-1 / x+1, merged surfaces equal as
+   functions; membership in a read-back volume is Pin.  The container is shown to
+   keep its FILL (it is never converted itself), consistency of the helper planes
+   and equal senses of merged surfaces are proved, not assumed. *)
+Theorem C01_partition_fill_points_linked :
+  forall (fval : Z -> point -> R) (u0 u1 : Z),
+  (forall q, fval u0 q = (px q - 1)%R) -> (forall q, fval u1 q = (px q + 1)%R) ->
+  forall (T surf : Type) (tr_empty : T -> bool) (teqb : T -> T -> bool)
+         (tr_surf : T -> surf -> surf) (inv : T -> point -> point) (sense : surf -> point -> bool)
+         (Hsense : forall t o p, sense (tr_surf t o) p = sense o (inv t p))
+         (Hkey : forall a b, teqb a b = true -> tr_empty a = tr_empty b /\ forall p, inv a p = inv b p)
+         fuel5 cf ifd ifg num den (s0 s1 s2 : C05.Model.state T surf) rs cells3
+         (Hf : C05.Proofs.fresh_ok T surf s0) (Hc : C05.Model.s_cache s0 = [])
+         (Hnd : NoDup (map fst (C05.Model.s_cells s0))) (Hrf : C05.Proofs.all_ref_free T surf s0)
+         (Ho : forall c cl, C05.Model.dget c (C05.Model.s_cells s0) = Some cl -> C05.Model.c_orig cl = [])
+         (Ht : C05.Model.trcl_phase T surf tr_empty teqb tr_surf fuel5 (map fst (C05.Model.s_cells s0)) s0
+               = C05.Model.Ok s1)
+         (Hfill : C05.Model.fill_phase T surf tr_empty teqb tr_surf fuel5 cf ifd ifg s1 = C05.Model.Ok (rs, s2))
+         (Hinl : C05.Model.inline_cells T fuel5 num den (C05.Model.s_cells s2) = C05.Model.Ok cells3),
+  let s3 := C05.Proofs.set_cells T surf s2 cells3 in
+  let du := C05.Model.by_universe (C05.Model.s_cells s0) in
+  forall (key : Z) (ks : list Z) (kcl : C05.Model.cell T) (p : point) (ch : list Z)
+         matching val fuel todo cnt0 s' rn skipped d',
+  off_surfaces fval p ->
+  In (key, ks) (combine (C05.Model.fill_keys (C05.Model.s_cells s0)) rs) ->
+  C05.Model.dget key (C05.Model.s_cells s0) = Some kcl ->
+  C05.Spec.LocW T surf point tr_empty inv sense s0 du key p ch true ->
+  C05.Spec.universe_partitionW T surf point tr_empty inv sense s0 du ->
+  (forall chs ch', C05.Spec.Paths T surf s0 du key chs -> In ch' chs ->
+     exists b', C05.Spec.LocW T surf point tr_empty inv sense s0 du key p ch' b') ->
+  (forall k o, C05.Model.dget k (C05.Model.s_surfs s3) = Some o ->
+     k <> 0 /\ exists ids, lookup k matching = Some ids /\
+                           existsb (lit (sigma_of fval p)) ids = sense o p) ->
+  (forall k ids, lookup k matching = Some ids -> Forall (fun x => x <> 0) ids) ->
+  (forall c cl, C05.Model.dget c (C05.Model.s_cells s3) = Some cl ->
+     C05.Spec.Den T surf point sense s3 p (C05.Model.c_geom cl) (val c)) ->
+  0 < u0 -> 0 < u1 ->
+  NoDup todo -> (forall k, In k todo -> k <= cnt0) ->
+  (forall k, In k todo <-> exists cl, C05.Model.dget k cells3 = Some cl /\ C05.Model.c_imp cl <> 0 /\
+                                      C05.Model.c_univ cl = 0 /\ C05.Model.c_fill cl = None) ->
+  convert_cells fuel (cells_of5 (C05.Model.s_cells s3)) matching u0 u1 todo (mkSt cnt0 [] [] []) = Ok s' ->
+  prune u0 u1 rn (vols s') = Ok d' ->
+  (forall r, rn = Some r -> merged_equal fval r) ->
+  (forall k, In k skipped -> k <= cnt0 /\ ~ In k todo) ->
+  (forall k', In k' todo ->
+     (exists cl, C05.Model.dget k' (C05.Model.s_cells s0) = Some cl /\ C05.Model.c_univ cl = 0) \/
+     (exists key' ks', In (key', ks') (combine (C05.Model.fill_keys (C05.Model.s_cells s0)) rs) /\
+                       In k' ks')) ->
+  (forall c cl, C05.Model.dget c (C05.Model.s_cells s0) = Some cl -> C05.Model.c_univ cl = 0 ->
+     c <> key -> val c = false) ->
+  exists k, In k ks /\
+    C05.Spec.RepresentsW T surf point tr_empty inv sense s0 du s3 key k ch /\
+    (In k todo <-> C05.Model.c_imp kcl <> 0) /\
+    exists Tb, read_table_c (print_table_c skipped d') = Some Tb /\
+      (C05.Model.c_imp kcl <> 0 ->
+         (forall j, pt_in fval Tb p j <-> j = k) /\
+         exists v, lookup k Tb = Some v /\ v_fict v = false /\ v_orig v = C05.Spec.prov ch) /\
+      (C05.Model.c_imp kcl = 0 -> forall j, ~ pt_in fval Tb p j).
+Proof. exact partition_fill_points_linked. Qed.
+Print Assumptions C01_partition_fill_points_linked.
 
 (* COMPOSING the C11 link and the C05 link: C05's parsed deck s0 is built from
    C11's table after complement elimination (tr5: C11 tree -> C05 tree; the other
